@@ -218,8 +218,8 @@ fn prev_off(pz: &Pz, i: usize) -> i64 {
     }
 }
 
-/// `WellSeparated`: the wall-clock windows of consecutive transitions are disjoint and in order,
-/// and the footer rule's windows do not interleave with the last table window
+/// `Spec.Zone.zoneSeparatedB` = `WellSeparated` (the wall-clock windows of consecutive transitions are
+/// disjoint and in order) and `JoinSeparated` (last table transition vs footer rule)
 fn well_separated(pz: &Pz) -> bool {
     let mut hi_prev: Option<i64> = None;
     for (i, &(t, idx)) in pz.trans.iter().enumerate() {
@@ -232,25 +232,47 @@ fn well_separated(pz: &Pz) -> bool {
         }
         hi_prev = Some(hi);
     }
-    if let (Rule::Alt(a), Some(&(t, idx))) = (&pz.rule, pz.trans.last()) {
+    // `Spec.Zone.joinSeparatedB`: separation between the last table transition and the footer rule
+    if let Some(&(t, idx)) = pz.trans.last() {
         let n = pz.trans.len();
         let (p, af) = (prev_off(pz, n - 1), pz.types[idx].off);
-        let (lo, hi) = (t.saturating_add(p.min(af)), t.saturating_add(p.max(af)));
-        let y0 = year_of_day(t.div_euclid(86400));
-        if y0.abs() > YEAR_LIM {
-            return false;
-        }
-        let (omin, omax) = (a.std.off.min(a.dst.off), a.std.off.max(a.dst.off));
-        for y in y0 - 2..=y0 + 2 {
-            for x in [start_at(a, y), end_at(a, y)] {
-                let ok = x == t || x + omax < lo || x + omin > hi;
-                if !ok {
+        let hi = t.saturating_add(p.max(af));
+        match &pz.rule {
+            Rule::None => {}
+            Rule::Fixed(l) => {
+                if l.off != af {
                     return false;
+                }
+            }
+            Rule::Alt(a) => {
+                let y0 = year_of_day(t.div_euclid(86400));
+                if y0.abs() > YEAR_LIM {
+                    return false;
+                }
+                // the rule prescribes at T the offset the table switches to (what `TimeZone::new` validates)
+                let at_t = if rule_is_dst(a, t) { a.dst.off } else { a.std.off };
+                if at_t != af {
+                    return false;
+                }
+                let (omin, omax) = (a.std.off.min(a.dst.off), a.std.off.max(a.dst.off));
+                for y in y0 - 1..=y0 + 1 {
+                    for x in [start_at(a, y), end_at(a, y)] {
+                        let ok = (x <= t && x + omax <= hi) || (t < x && hi < x + omin);
+                        if !ok {
+                            return false;
+                        }
+                    }
                 }
             }
         }
     }
     true
+}
+
+/// zones on which the harness's evaluation of the separation hypotheses can be compared with the
+/// model's (`tzl.sep`): no saturation, years well inside the range of the rule arithmetic
+fn sep_comparable(pz: &Pz) -> bool {
+    pz.trans.iter().all(|&(t, _)| t > -(1i64 << 55) && t < (1i64 << 55))
 }
 
 fn mk(class: &'static str, label: String, zone: vt::Zone) -> Zc {
@@ -531,6 +553,7 @@ fn run_zone(c: &mut Ctx, z: &Zc) {
     let mut seen: BTreeSet<String> = BTreeSet::new();
     c.count(&format!("zone.{}", z.class));
     c.count(if z.sep { "zone.well_separated" } else { "zone.not_well_separated" });
+    c.count(&format!("zone.{}.{}", z.class, if z.sep { "separated(composed theorem applies)" } else { "not_separated" }));
     if pz.leaps > 0 {
         c.count("zone.with_leap_records(correspondence only)");
     }
@@ -544,6 +567,10 @@ fn run_zone(c: &mut Ctx, z: &Zc) {
     ));
     let oracles = pz.leaps == 0;
     let offs = all_offsets(pz);
+    // the decidable hypotheses of the composed theorem, evaluated here and by the model
+    if sep_comparable(pz) {
+        c.op(&format!("tzl.sep {}", z.dump), b01(z.sep));
+    }
     // ---- lookup by instant
     for chunk in at.chunks(400) {
         let res: Vec<Result<(i32, bool), String>> =
